@@ -24,6 +24,7 @@ RULE = (
     ' Also: a second cascade after new leaves arrived, after the extreme leaf was withdrawn, replaced by an older-dated file or updated'
     ' in place (same or restored Builder); depth-0 pyramids; statement-boundary delays in a quarter of the parallel cascades.'
     ' Round 8: every tile_fits case calls tile_fits again on the finished directory and rewrites the WTML from the returned description.'
+    ' Round 9: leaf values near the top of and (F64) far beyond the single-precision range.'
 )
 ASSUMPTIONS = ["leaf data are read back from the leaf FITS files with astropy", "single-precision rounding: relative 1e-6"]
 DT = dict(F32=np.float32, F64=np.float64, I16=np.int16, I32=np.int32)
